@@ -442,7 +442,11 @@ def ctor_misuse(types, res, seed):
         other.update_from_buffer(a, pa)
         before = place.whole(other)
         free0, cap0, log0 = other.get_free(), other.capacity, len(other.log)
-        for name, kw in (("x-ctx", dict(_buffer=other, _context=place.ctx(0))), ("x-offset", dict(_offset=8)), ("x-offset", dict(_offset=8, _context=place.ctx(0)))):
+        for name, kw in (("x-ctx", dict(_buffer=other, _context=place.ctx(0))), ("x-offset", dict(_offset=8)), ("x-offset", dict(_offset=8, _context=place.ctx(0))),
+                         # the foreign buffer together with every way of saying where in it
+                         ("x-ctx", dict(_buffer=other, _context=place.ctx(0), _offset=16)), ("x-ctx", dict(_buffer=other, _context=place.ctx(0), _offset=np.int64(16))),
+                         ("x-ctx", dict(_buffer=other, _context=place.ctx(0), _offset=0)), ("x-ctx", dict(_buffer=other, _context=place.ctx(0), _offset="packed")),
+                         ("x-ctx", dict(_buffer=other, _context=place.ctx(0), _offset="aligned"))):
             res.cases += 1
             res.transitions += 1
             res.events[name] += 1
